@@ -30,4 +30,12 @@ def setAt2 {α : Type} (f : Nat → Nat → α) (i k : Nat) (x : α) : Nat → N
 def setAt3 {α : Type} (f : Nat → Nat → Nat → α) (k q a : Nat) (x : α) : Nat → Nat → Nat → α :=
   fun k' q' a' => if k' = k ∧ q' = q ∧ a' = a then x else f k' q' a'
 
+/-- `list(a)(i).push_back(x)`: append to one of the per-layer, per-vertex lists -/
+def appendAt (f : Nat → Nat → List Nat) (a i x : Nat) : Nat → Nat → List Nat :=
+  fun a' i' => if a' = a ∧ i' = i then f a i ++ [x] else f a' i'
+
+/-- append to one of the per-layer lists -/
+def pushAt {β : Type} (f : Nat → List β) (a : Nat) (x : β) : Nat → List β :=
+  fun a' => if a' = a then f a ++ [x] else f a'
+
 end MT.Imp
